@@ -1,3 +1,3 @@
 SPECIFICATION Spec
-CONSTANT ExportImpl = "asis"
+CONSTANT ExportImpl = "ref"
 INVARIANT VerdictOk
